@@ -41,7 +41,9 @@ PARAMS = {'SinOsc': ['freq', 'phase'], 'Saw': ['freq'], 'LFNoise0': ['freq'], 'L
           'Pan2': ['input', 'pos', 'level'], 'Clip': ['input', 'lo', 'hi']}
 RATE = {'ar': 'audio', 'kr': 'control', 'ir': 'scalar'}
 METHODS = {'lag': ('Lag', 1, 'MLag'), 'lag2': ('Lag2', 1, 'MLag'), 'lag3': ('Lag3', 1, 'MLag'),
-           'lagud': ('LagUD', 2, 'MDirect'), 'slew': ('Slew', 2, 'MDirect'), 'clip': ('Clip', 2, 'MClip')}
+           'lagud': ('LagUD', 2, 'MDirect'), 'slew': ('Slew', 2, 'MDirect'), 'clip': ('Clip', 2, 'MClip'),
+           'fold': ('Fold', 2, 'MClip'), 'wrap': ('Wrap', 2, 'MClip'), 'moddif': ('ModDif', 2, 'MClip')}
+NUMERIC_KERNEL = ('clip', 'fold', 'wrap', 'moddif')     # numbers answer these with builtins kernels (C15)
 OPNUM = {'+': 'Z.add', '*': 'Z.mul', '-': 'Z.sub'}
 
 # ---------------------------------------------------------------------------
@@ -213,7 +215,7 @@ class Gen:
         pre = self.prelude(need_unit=True)
         meth = self.rng.choice(sorted(METHODS))
         _, nargs, _ = METHODS[meth]
-        recv = self.receiver(pre, self.rng.choice([1, 1, 2, 3]), numbers=(meth != 'clip'))
+        recv = self.receiver(pre, self.rng.choice([1, 1, 2, 3]), numbers=(meth not in NUMERIC_KERNEL))
         consts = self.OPCONST + ([0] if meth.startswith('lag') and len(meth) <= 4 else [])
         args = [self.tree(pre, self.rng.choice([0, 1, 1, 2]), consts, empty=0.04, tuples=0.15, p_list=0.7) for _ in range(nargs)]
         return {'kind': 'method', 'pre': pre, 'meth': meth, 'self': recv, 'args': args}
@@ -225,6 +227,34 @@ class Gen:
         mul = self.tree(pre, d, self.OPCONST, empty=0.0, tuples=0.1, p_list=0.7)
         add = self.tree(pre, d, self.OPCONST, empty=0.0, tuples=0.1, p_list=0.5)
         return {'kind': kind, 'pre': pre, 'self': recv, 'mul': mul, 'add': add}
+
+    def dup(self):
+        pre = self.prelude()
+        recv = self.aslist(self.tree(pre, self.rng.choice([1, 2]), self.CONST, empty=0.05, strs=True, p_list=0.9), 'C')
+        return {'kind': 'dup', 'pre': pre, 'self': recv, 'n': self.rng.choice([0, 1, 2, 2, 3, 5])}
+
+    def sum(self):
+        pre = self.prelude()
+        recv = self.aslist(self.tree(pre, self.rng.choice([1, 1, 2, 3]), self.OPCONST + [0, 0], empty=0.04, tuples=0.1, p_list=0.9, p_unit=0.75), 'C')
+        return {'kind': 'sum', 'pre': pre, 'self': recv}
+
+    def labels(self, n):
+        r = self.rng.random()
+        if r < 0.35:
+            return ['N']
+        if r < 0.55:
+            return ['S', self.rng.choice(['a', 'freq', 'x y'])]
+        return ['L', [['S', 'l%d' % i] for i in range(self.rng.choice([1, 2, 3, n, n + 1]))]]
+
+    def poll(self):
+        pre = self.prelude(need_unit=True)
+        recv = self.receiver(pre, self.rng.choice([1, 1, 2]), numbers=False)
+        trig = self.tree(pre, self.rng.choice([0, 0, 1]), [10, 4, 2], tuples=0.0, p_list=0.6, p_unit=0.4)
+        tid = self.tree(pre, self.rng.choice([0, 0, 1]), [-1, 3, 7], tuples=0.0, p_list=0.6, p_unit=0.0)
+        if self.rng.random() < 0.5:
+            return {'kind': 'poll', 'pre': pre, 'self': recv, 'trig': trig, 'label': self.labels(len(recv[1])), 'tid': tid}
+        run = self.tree(pre, self.rng.choice([0, 0, 1]), [1, 2], tuples=0.0, p_list=0.6, p_unit=0.2)
+        return {'kind': 'dpoll', 'pre': pre, 'self': recv, 'run': run, 'label': self.labels(len(recv[1])), 'tid': tid}
 
     def out(self):
         pre = self.prelude()
@@ -262,6 +292,17 @@ def model_call(case):
         cls, _, ctor = METHODS[case['meth']]
         return 'mc_perform (%s %s) [%s] [%s]' % (ctor, cid(cls + '/audio'), '; '.join(T(x) for x in case['self'][1]),
                                                  '; '.join(T(a) for a in case['args']))
+    if k == 'dup':
+        return 'cl_dup [%s] %d' % ('; '.join(T(x) for x in case['self'][1]), case['n'])
+    if k == 'sum':
+        return 'cl_sum %s [%s]' % (cid('BinaryOpUGen/audio/+'), '; '.join(T(x) for x in case['self'][1]))
+    if k in ('poll', 'dpoll'):
+        items = '; '.join(T(x) for x in case['self'][1])
+        defl = '; '.join(T(['S', 'ChannelList UGen [%d]' % i]) for i in range(len(case['self'][1])))
+        if k == 'poll':
+            return 'cl_poll %s %s [%s] %s %s %s [%s]' % (cid('Poll/audio'), cid('Impulse/audio'), items, T(case['trig']),
+                                                         T(case['label']), T(case['tid']), defl)
+        return 'cl_dpoll %s [%s] %s %s %s [%s]' % (cid('Dpoll/demand'), items, T(case['label']), T(case['run']), T(case['tid']), defl)
     if k == 'madd':
         return 'cl_madd %s [%s] %s %s' % (cid('MulAdd/audio'), '; '.join(T(x) for x in case['self'][1]), T(case['mul']), T(case['add']))
     if k == 'muladd_new':
@@ -312,6 +353,14 @@ def show_call(case):
         c = '-%s' % show(case['a'])
     elif k == 'method':
         c = '%s.%s(%s)' % (show(case['self']), case['meth'], ', '.join(show(a) for a in case['args']))
+    elif k == 'dup':
+        c = '%s.dup(%d)' % (show(case['self']), case['n'])
+    elif k == 'sum':
+        c = '%s.sum()' % show(case['self'])
+    elif k == 'poll':
+        c = '%s.poll(%s, %s, %s)' % (show(case['self']), show(case['trig']), show(case['label']), show(case['tid']))
+    elif k == 'dpoll':
+        c = '%s.dpoll(%s, %s, %s)' % (show(case['self']), show(case['label']), show(case['run']), show(case['tid']))
     elif k == 'madd':
         c = '%s.madd(%s, %s)' % (show(case['self']), show(case['mul']), show(case['add']))
     elif k == 'muladd_new':
@@ -372,6 +421,9 @@ def gen_cases(ctx):
         cases.append(g.ugenbinop(rev=True))
         cases.append(g.madd())
         cases.append(g.madd('muladd_new'))
+        cases.append(g.dup())
+        cases.append(g.sum())
+        cases.append(g.poll())
     return cases
 
 
@@ -420,7 +472,7 @@ def correspond(ctx):
     c.rule = ('random argument shapes (scalars incl. strings/None, tuples, lists and ChannelLists of lengths 0-4, nesting depth <= 3, '
               'default-filled and keyword positions) given to 9 real UGen classes whose ar/kr/ir delegate directly to _multi_new '
               '(incl. the two-output Pan2), to + * - and unary minus on ChannelLists and on UGens (both operand orders), to the '
-              'ChannelList methods lag lag2 lag3 lagud slew clip madd, to MulAdd.new, and to Out/ReplaceOut .ar/.kr with nested channel '
+              'ChannelList methods lag lag2 lag3 lagud slew clip fold wrap moddif madd dup sum poll dpoll, to MulAdd.new, and to Out/ReplaceOut .ar/.kr with nested channel '
               'arrays and literal zeros; compared: the result tree (units by creation index and output channel, constants by value) '
               'and the complete list of units created in the SynthDef in creation order with their input vectors, or the exception '
               'kind.  non-trivial = the call expanded (result is a channel list) or created at least two units')
@@ -467,6 +519,8 @@ def search(ctx, failures):
         k = g.out()
         if probeable(k):
             cases.append(k)
+        cases.append(g.sum())
+        cases.append(g.poll())
     res = ctx.impl('c03_law', {'cases': cases}, timeout=900)
     found = []
     seen = set()
@@ -477,6 +531,11 @@ def search(ctx, failures):
             continue
         seen.add(key)
         sig = 'C03:cl_madd_not_zipped' if k['kind'] == 'madd' else 'C03:law:' + key
+        if k['kind'] in ('sum', 'poll'):
+            found.append(Failure('search', 'ChannelList.%s: %s : %s' % (k['kind'], show_call(k), b['why']), signature=sig,
+                                 replay={'call': show_call(k), 'case': k, 'observed': b['whole'], 'expected': b['parts']},
+                                 found_input=True, theorem='channel_list_poll_law' if k['kind'] == 'poll' else None))
+            continue
         if k['kind'] == 'out_ar':
             found.append(Failure('search', 'output units must receive audio-rate silence for literal zeros: %s : %s' % (show_call(k), b['why']),
                                  signature=sig, replay={'call': show_call(k), 'case': k, 'units_created': b['whole']},
